@@ -568,7 +568,11 @@ func leakClass(gn, wn string) string {
 
 // valClass: coarse class of a non-path value pair.
 func valClasses(call, want, got string) (string, string) {
-	switch strings.TrimPrefix(call, "BaseChdir.") {
+	for _, p := range []string{"BaseChdir.", subPrefix, "SubLinkW.", "SubLink.", "sv."} {
+		call = strings.TrimPrefix(call, p)
+	}
+
+	switch call {
 	case "Stat", "Lstat", "Open.Stat":
 		wn, wr, _ := strings.Cut(want, " ")
 		gn, gr, _ := strings.Cut(got, " ")
@@ -636,6 +640,11 @@ func (s *sys) Step(op int) bfs.StepResult {
 		pc, rc = "base:"+baseCwdClass(o.A), "n/a"
 	}
 
+	subOp := o.Dir != ""
+	if subOp {
+		pc, rc = subClasses(o, baseBefore)
+	}
+
 	// class of the base's cwd before the call, when it is not in B (it got
 	// there by a call on the base)
 	bcc := ""
@@ -668,6 +677,13 @@ func (s *sys) Step(op int) bfs.StepResult {
 	switch {
 	case baseOp:
 		got, want = s.runBaseChdir(o.A)
+	case subOp:
+		// A view that does not advertise symbolic links (as the wrapper itself):
+		// the reference's view answers as a file system without that feature.
+		var viewSymlink bool
+
+		got, viewSymlink = runSub(s.wr, o, false)
+		want, _ = runSub(s.ref, o, !viewSymlink && len(got.Subs) > 0 && got.Subs[0].Kind == "ok")
 	case symlinkCalls[o.Call] && !s.wr.HasFeature(avfs.FeatSymlink) && s.ref.HasFeature(avfs.FeatSymlink):
 		// The wrapper does not advertise symbolic links: the reference is a
 		// file system without that feature.
@@ -683,6 +699,12 @@ func (s *sys) Step(op int) bfs.StepResult {
 	ncwd := vcwd
 	if baseOp {
 		ncwd = path.Clean(s.ref.CurDir())
+	}
+
+	if subOp {
+		// (calls on a view are made with absolute names, or in the first step of
+		// a history, where the cwd is the root)
+		ncwd = "/"
 	}
 
 	var (
@@ -750,6 +772,16 @@ func (s *sys) Step(op int) bfs.StepResult {
 
 	rootCase := s.fsName == "OrefaFS" && refRootInvolved(vcwd, o)
 	readOnly := readOnlyCalls[o.Call]
+
+	// fromOutside: a read answered with something that lies outside B (outside
+	// the view, for a call made on a view)
+	fromOutside := func(i int, g sub) bool {
+		if subOp {
+			return s.subAnswersFromOutside(o, i, g)
+		}
+
+		return readOnly && rc != "inside" && s.answersFromOutside(o, bcwd, i, g)
+	}
 	sameKinds := true
 
 	n := len(want.Subs)
@@ -810,7 +842,7 @@ compare:
 			switch {
 			case rootCase:
 				note(call, "ref-root-unaddressable", w.Kind, g.Kind, fmt.Sprintf("reference %s (%s), BasePathFS %s (%s)", w.Kind, w.Msg, g.Kind, g.Msg))
-			case readOnly && g.Kind == "ok" && rc != "inside" && s.answersFromOutside(o, bcwd, i, g):
+			case g.Kind == "ok" && fromOutside(i, g):
 				mk(call, "outside-read", oc(w.Kind), g.Kind, fmt.Sprintf("reference %s, BasePathFS ok: val=%q paths=%q", w.Kind, g.Val, g.Paths))
 			default:
 				mk(call, "outcome", oc(w.Kind), oc(g.Kind), fmt.Sprintf("reference %s (%s), BasePathFS %s (%s)", w.Kind, w.Msg, g.Kind, g.Msg))
@@ -829,14 +861,15 @@ compare:
 			why := fmt.Sprintf("reference %q, BasePathFS %q", w.Val, g.Val)
 
 			switch {
-			case !baseOp && nameSpellingOnly(call, vcwd, o.A, w.Val, g.Val):
+			case !baseOp && !subOp && nameSpellingOnly(call, vcwd, o.A, w.Val, g.Val),
+				subOp && !isSubLink(o) && nameSpellingOnly(strings.TrimPrefix(call, subPrefix), "/", o.A, w.Val, g.Val):
 				// FileInfo.Name echoes the last element of the name as given
 				// ("." for "a/.") on the reference and of the cleaned virtual
 				// path ("a") on the wrapper: the same node, another spelling
 				notes = append(notes, "spelling-only")
 			case rootCase:
 				note(call, "ref-root-unaddressable", wc, gc, why)
-			case readOnly && rc != "inside" && s.answersFromOutside(o, bcwd, i, g):
+			case fromOutside(i, g):
 				mk(call, "outside-read", wc, gc, why)
 			default:
 				mk(call, "value", wc, gc, why)
@@ -1097,6 +1130,137 @@ func (s *sys) answersFromOutside(o opT, bcwd string, i int, g sub) bool {
 	return i < len(probe.Subs) && probe.Subs[i].Kind == g.Kind && probe.Subs[i].Val == g.Val
 }
 
+// ---- operations made through a view returned by Sub ----
+
+func viewRoot(dir string) string { return path.Clean(basePath + "/" + dir) }
+
+func dumpHas(dump []string, bp string) bool {
+	for _, l := range dump {
+		lp := pathOf(l)
+		if lp == "" {
+			lp = "/"
+		}
+
+		if lp == bp {
+			return true
+		}
+	}
+
+	return false
+}
+
+// subNaive tells where the base lands when the string is resolved in the BASE's
+// namespace without clamping: an operand p of a call on the view joined to the
+// view's directory; for SubLink the link's target as the base follows it (an
+// absolute target as it is, a relative one from the view's directory, where
+// the link is). class: inside (the view) | above-view (elsewhere in B) |
+// outside-existing | outside-missing.
+func subNaive(o opT, p string, baseDump []string) (bp, class string) {
+	root := viewRoot(o.Dir)
+
+	bp = path.Clean(root + "/" + p)
+	if isSubLink(o) && strings.HasPrefix(p, "/") {
+		bp = path.Clean(p)
+	}
+
+	switch {
+	case bp == root || strings.HasPrefix(bp, strings.TrimSuffix(root, "/")+"/"):
+		class = "inside"
+	case underB(bp):
+		class = "above-view"
+	case dumpHas(baseDump, bp):
+		class = "outside-existing"
+	default:
+		class = "outside-missing"
+	}
+
+	return bp, class
+}
+
+// subClasses gives the signature fields path and reach of an operation made
+// through a view. path: "sub:" + the lexical class of the operand(s) in the
+// view's namespace (cwd "/"); for SubLink "link:abs|rel," + escape (a relative
+// target climbs above the view's root) | view-existing | view-missing (what
+// the target names in the view's namespace). reach: subNaive of the operand
+// (the less confined of two), of the target.
+func subClasses(o opT, baseDump []string) (pc, rc string) {
+	_, rc = subNaive(o, o.A, baseDump)
+
+	if !isSubLink(o) {
+		pc = "sub:" + pathClass("/", o.A)
+
+		if o.Two {
+			pc = "sub:" + pairClass("/", o.A, o.B)
+
+			if _, r2 := subNaive(o, o.B, baseDump); r2 != "inside" && (rc == "inside" || r2 == "outside-existing") {
+				rc = r2
+			}
+		}
+
+		return pc, rc
+	}
+
+	meant, esc, _ := vResolve("/", o.A)
+
+	pc = "link:rel,"
+	if strings.HasPrefix(o.A, "/") {
+		pc = "link:abs,"
+	}
+
+	switch {
+	case esc:
+		pc += "escape"
+	case dumpHas(baseDump, path.Clean(viewRoot(o.Dir)+meant)):
+		pc += "view-existing"
+	default:
+		pc += "view-missing"
+	}
+
+	return pc, rc
+}
+
+// subAnswersFromOutside: sub i of an operation made through a view is a read
+// whose answer is the one the base gives for the place subNaive names, which
+// is not in the view (calls on the view) / not in B (the link of SubLink).
+func (s *sys) subAnswersFromOutside(o opT, i int, g sub) bool {
+	if i == 0 || o.Two && !isSubLink(o) {
+		return false
+	}
+
+	bp, class := subNaive(o, o.A, s.baseDump)
+
+	if !isSubLink(o) {
+		call := strings.TrimPrefix(o.Call, subPrefix)
+		if !readOnlyCalls[call] || class == "inside" {
+			return false
+		}
+
+		probe := run(s.base, opT{Call: call, A: bp})
+
+		return i-1 < len(probe.Subs) && probe.Subs[i-1].Kind == g.Kind && probe.Subs[i-1].Val == g.Val
+	}
+
+	call := strings.TrimPrefix(g.Label, "sv.")
+	if !readOnlyCalls[call] || class != "outside-existing" || g.Kind != "ok" {
+		return false
+	}
+
+	probe := run(s.base, opT{Call: call, A: bp})
+	if len(probe.Subs) == 0 || probe.Subs[0].Kind != "ok" {
+		return false
+	}
+
+	pv, gv := probe.Subs[0].Val, g.Val
+
+	if call == "Stat" || call == "Lstat" {
+		// (the name is the link's on one side, the target's on the other)
+		_, pv, _ = strings.Cut(pv, " ")
+		_, gv, _ = strings.Cut(gv, " ")
+	}
+
+	return pv == gv
+}
+
 // comparePaths compares two lists of path strings after normalising both
 // sides to the absolute cleaned virtual form (normPath): the property is about
 // which virtual location a string names, not about echoing the argument's
@@ -1257,6 +1421,11 @@ func refRootInvolved(vcwd string, o opT) bool {
 		c, _, _ := vResolve(vcwd, p)
 
 		return c == "/"
+	}
+
+	if o.Dir != "" {
+		// (OrefaFS has no Sub)
+		return false
 	}
 
 	switch o.Call {
